@@ -18,8 +18,10 @@ Hdr == Rec[2]
 TrKey == SeqToSet(Hdr.keys)
 TrProc == 0..(Hdr.nprocs - 1)
 
-VARIABLE l
-tvars == <<svars, l>>
+VARIABLES l,
+  callAt,   \* [Proc -> trace position of the process's latest call event]
+  born      \* set of <<g, position of the call event of the operation that wrote generation g>>
+tvars == <<svars, l, callAt, born>>
 Ev == Rec[l]
 IsEv(e) == l <= Len(Rec) /\ Ev.e = e /\ l' = l + 1
 P == Ev.p
@@ -91,9 +93,13 @@ TrBe ==
                /\ gen' = {o \in gen : ~(o[1] = c.k /\ o[2] = c.g)}
                /\ pc' = [pc EXCEPT ![P].st = "reclaimed"]
                /\ UNCHANGED <<meta, nextGen, inflight, gc>>
-            \/ \* the collector: only below its floor, never in flight, never referenced NOW
+            \/ \* the collector: only below its floor, never in flight, never referenced NOW.
+               \* The trace numbers generations in the order their payloads reach the backend, while the
+               \* floor compares MINTING times; a generation is minted somewhere between its operation's
+               \* call and its payload write, so "minted before the sweep began" is checked in the
+               \* weakest form the events determine: the writing operation was called before the sweep.
                /\ c.st = "gc"
-               /\ Ev.g < gc.floor
+               /\ \E b \in born : b[1] = Ev.g /\ b[2] < callAt[P]
                /\ <<Ev.k, Ev.g>> \notin inflight
                /\ meta[Ev.k].g # Ev.g
                /\ gen' = {o \in gen : ~(o[1] = Ev.k /\ o[2] = Ev.g)}
@@ -128,8 +134,16 @@ TrObs ==
   /\ {Ev.listed[j][1] : j \in 1..Len(Ev.listed)} = {k \in Key : Present(k)}
   /\ UNCHANGED svars
 
-TraceInit == Init /\ l = 1
-TraceNext == TrReset \/ TrInit \/ TrCall \/ TrBe \/ TrQuiet \/ TrRet \/ TrCrash \/ TrObs
+\* bookkeeping of call positions (trace-only; determined by the event alone)
+Clock ==
+  /\ callAt' = IF Ev.e = "init" THEN [p \in Proc |-> 0]
+                ELSE IF Ev.e = "call" THEN [callAt EXCEPT ![P] = l] ELSE callAt
+  /\ born' = IF Ev.e = "init" THEN {}
+              ELSE IF Ev.e = "be" /\ Ev.res = "ok" /\ Ev.cls = "gen" /\ Ev.kind \in {"put", "copy"}
+                   THEN born \cup {<<Ev.g, callAt[P]>>} ELSE born
+
+TraceInit == Init /\ l = 1 /\ callAt = [p \in Proc |-> 0] /\ born = {}
+TraceNext == (TrReset \/ TrInit \/ TrCall \/ TrBe \/ TrQuiet \/ TrRet \/ TrCrash \/ TrObs) /\ Clock
 TraceSpec == TraceInit /\ [][TraceNext]_tvars
 
 TraceAccepted ==
